@@ -86,6 +86,7 @@ class Exec:
         r = self.solver.check()
         self.stats.queries += 1
         self.stats.solver_s += time.time() - t
+        _dump_query(self.solver, r)
         if r == z3.unknown:
             self.solver.pop()
             raise Unsupported('solver returned unknown: ' + self.solver.reason_unknown())
@@ -833,6 +834,26 @@ def _panic_model(callee):
             if isinstance(a, Opaque) and a.tag == 'fmt': msg += ': ' + str(a.data); break
         ex.panic(msg)
     return call
+
+
+_DUMPED = {'n': 0}
+
+
+def _dump_query(solver, result):
+    """MIRSYM_DUMP_SMT=<dir>: write every k-th query (MIRSYM_DUMP_EVERY, default 50; at most MIRSYM_DUMP_MAX per process, default 40) as
+    SMT-LIB2 with the verdict z3 gave, for the cross-check with other solvers (tools/crosscheck.py)"""
+    d = os.environ.get('MIRSYM_DUMP_SMT')
+    if not d: return
+    _DUMPED['n'] += 1
+    every = int(os.environ.get('MIRSYM_DUMP_EVERY', '50')); mx = int(os.environ.get('MIRSYM_DUMP_MAX', '40'))
+    if _DUMPED['n'] % every != 0 or _DUMPED['n'] // every > mx: return
+    try:
+        os.makedirs(d, exist_ok=True)
+        with open(os.path.join(d, 'q_%d_%d.smt2' % (os.getpid(), _DUMPED['n'])), 'w') as f:
+            f.write('; z3-verdict: %s\n' % result)
+            f.write(solver.to_smt2())
+    except Exception:
+        pass
 
 
 def _dynamic_dispatch(ex0, trait, method, callee, infos=None):
